@@ -135,12 +135,82 @@ func (i *Ident) SQL() string {
 	return i.Name
 }
 
+// Operator precedence levels, mirroring the parser's ladder (higher binds
+// tighter). They decide where the serialisers must print parentheses so that
+// the text parses back to the same tree: "(a OR b) AND c", "a - (b - c)".
+const (
+	precOr         = 1
+	precAnd        = 2
+	precNot        = 3
+	precComparison = 4 // = <> < <= > >=, IS NULL, BETWEEN, IN, LIKE
+	precConcat     = 5 // ||
+	precAdditive   = 6 // + -
+	precMultiply   = 7 // * / %, unary sign
+	precPostfix    = 8 // :: and the JSON operators
+	precPrimary    = 9
+)
+
+func binaryOperatorPrecedence(op string) int {
+	switch strings.ToUpper(op) {
+	case "OR":
+		return precOr
+	case "AND":
+		return precAnd
+	case "=", "<>", "!=", "<", "<=", ">", ">=", "IS NULL", "IS NOT NULL",
+		"LIKE", "ILIKE", "SIMILAR TO", "REGEXP", "RLIKE", "~", "~*", "!~", "!~*":
+		return precComparison
+	case "||":
+		return precConcat
+	case "+", "-":
+		return precAdditive
+	case "*", "/", "%":
+		return precMultiply
+	}
+	return precPostfix
+}
+
+// exprPrecedence returns the precedence level of the operator at the root of e.
+func exprPrecedence(e Expression) int {
+	switch v := e.(type) {
+	case *BinaryExpression:
+		if v == nil {
+			return precPrimary
+		}
+		if v.Not && binaryOperatorPrecedence(v.Operator) != precComparison {
+			return precNot // printed as NOT (...)
+		}
+		return binaryOperatorPrecedence(v.Operator)
+	case *UnaryExpression:
+		if v == nil {
+			return precPrimary
+		}
+		if v.Operator == Not {
+			return precNot
+		}
+		return precMultiply
+	case *BetweenExpression, *InExpression, *AnyExpression, *AllExpression:
+		return precComparison
+	}
+	return precPrimary
+}
+
+// parenthesizeOperand wraps the already serialised operand e in parentheses
+// when its own operator binds less tightly than its position requires.
+func parenthesizeOperand(e Expression, text string, min int) string {
+	if e != nil && exprPrecedence(e) < min {
+		return "(" + text + ")"
+	}
+	return text
+}
+
+func operandSQL(e Expression, min int) string {
+	return parenthesizeOperand(e, exprSQL(e), min)
+}
+
 func (b *BinaryExpression) SQL() string {
 	if b == nil {
 		return ""
 	}
-	left := exprSQL(b.Left)
-	right := exprSQL(b.Right)
 	op := b.Operator
 	if b.CustomOp != nil {
 		op = b.CustomOp.String()
@@ -148,8 +218,25 @@ func (b *BinaryExpression) SQL() string {
 
 	upperOp := strings.ToUpper(op)
 
+	// Operands of a left-associative operator: the left one may be of the same
+	// level, the right one must bind tighter. Comparison-level operators take
+	// concatenation-level operands on both sides.
+	level := binaryOperatorPrecedence(op)
+	leftMin, rightMin := level, level+1
+	if level == precComparison {
+		leftMin, rightMin = precConcat, precConcat
+	}
+	if level == precPostfix {
+		rightMin = precPrimary
+	}
+	left := operandSQL(b.Left, leftMin)
+	right := operandSQL(b.Right, rightMin)
+
 	// Handle IS NULL / IS NOT NULL (right side is NULL literal)
 	if upperOp == "IS NULL" || upperOp == "IS NOT NULL" {
+		if b.Not && upperOp == "IS NULL" {
+			upperOp = "IS NOT NULL"
+		}
 		return fmt.Sprintf("%s %s", left, upperOp)
 	}
 
@@ -173,13 +260,13 @@ func (u *UnaryExpression) SQL() string {
 	inner := exprSQL(u.Expr)
 	switch u.Operator {
 	case Not:
-		return "NOT " + inner
+		return "NOT " + parenthesizeOperand(u.Expr, inner, precComparison)
 	case PGPostfixFactorial:
 		return inner + "!"
 	case Plus:
-		return "+" + inner
+		return "+" + parenthesizeOperand(u.Expr, inner, precPostfix)
 	case Minus:
-		return "-" + inner
+		return "-" + parenthesizeOperand(u.Expr, inner, precPostfix)
 	default:
 		return u.Operator.String() + inner
 	}
@@ -239,7 +326,7 @@ func (b *BetweenExpression) SQL() string {
 	if b.Not {
 		not = "NOT "
 	}
-	return fmt.Sprintf("%s %sBETWEEN %s AND %s", exprSQL(b.Expr), not, exprSQL(b.Lower), exprSQL(b.Upper))
+	return fmt.Sprintf("%s %sBETWEEN %s AND %s", operandSQL(b.Expr, precConcat), not, operandSQL(b.Lower, precConcat), operandSQL(b.Upper, precConcat))
 }
 
 func (i *InExpression) SQL() string {
@@ -251,13 +338,13 @@ func (i *InExpression) SQL() string {
 		not = "NOT "
 	}
 	if i.Subquery != nil {
-		return fmt.Sprintf("%s %sIN (%s)", exprSQL(i.Expr), not, stmtSQL(i.Subquery))
+		return fmt.Sprintf("%s %sIN (%s)", operandSQL(i.Expr, precConcat), not, stmtSQL(i.Subquery))
 	}
 	vals := make([]string, len(i.List))
 	for idx, v := range i.List {
 		vals[idx] = exprSQL(v)
 	}
-	return fmt.Sprintf("%s %sIN (%s)", exprSQL(i.Expr), not, strings.Join(vals, ", "))
+	return fmt.Sprintf("%s %sIN (%s)", operandSQL(i.Expr, precConcat), not, strings.Join(vals, ", "))
 }
 
 func (e *ExistsExpression) SQL() string {
@@ -278,14 +365,14 @@ func (a *AnyExpression) SQL() string {
 	if a == nil {
 		return ""
 	}
-	return fmt.Sprintf("%s %s ANY (%s)", exprSQL(a.Expr), a.Operator, stmtSQL(a.Subquery))
+	return fmt.Sprintf("%s %s ANY (%s)", operandSQL(a.Expr, precConcat), a.Operator, stmtSQL(a.Subquery))
 }
 
 func (a *AllExpression) SQL() string {
 	if a == nil {
 		return ""
 	}
-	return fmt.Sprintf("%s %s ALL (%s)", exprSQL(a.Expr), a.Operator, stmtSQL(a.Subquery))
+	return fmt.Sprintf("%s %s ALL (%s)", operandSQL(a.Expr, precConcat), a.Operator, stmtSQL(a.Subquery))
 }
 
 func (f *FunctionCall) SQL() string {
